@@ -32,15 +32,6 @@ def drawn_values(t):
             and t[2][0][3] == ("const", "usize", 1) and length(arg(1))(t[2][0][2]) and t[2][1] == ("arg", 3))
 
 
-def look_through(P, t):
-    """ok(private helper(..)) -> the helper's Ok payload seen with the call's arguments (a value computed in an extracted helper)"""
-    if t[0] == "ok" and is_call(t[1]):
-        pays = ok_of(P, t[1])
-        if len(pays) == 1 and pays[0] != t:
-            return pays[0]
-    return t
-
-
 def repair_draw_count(ctx):
     P = ctx.prog
     f = ctx.anchor(RP + "repair_share_part1")
